@@ -8,6 +8,7 @@ functions over the cluster description only (no use of the model's maps, routing
 import KafkaVerif.Base.Proto
 import KafkaVerif.Model.Routing
 import KafkaVerif.Model.Discover
+import KafkaVerif.Model.Split
 import KafkaVerif.Spec.Routing
 import KafkaVerif.Gen.Routing
 
@@ -196,30 +197,18 @@ def firstErr (xs : List Sent) : Option String := xs.findSome? fun | .err k => so
 
 def sendModel (a : ApiMethods) (boot : Int) (m : MResponse) (down : List Int) (vt : VTable) (coords : List Int) (q : Req) : String :=
   let c := makeLayout (normalize m)
-  let splits := roundTripCases.contains .splitter && a.split
-  if a.pkg == "listoffsets" && splits then
-    let parts := q.info.tps.flatMap fun (t, ps) => ps.map fun p => ({ tps := [(t, [p])] } : ReqInfo)
-    let rs := parts.map (sendOne a boot c down vt)
-    -- Merge: an error only when every part failed
-    let allFailed := !rs.isEmpty && rs.all fun | .err _ => true | _ => false
-    showSent rs (if allFailed then firstErr rs else none)
-  else if a.group && splits then
-    -- describegroups (and every group request type that splits per group): one part per group
-    let rs := coords.map fun co => sendOne a boot c down vt { coordinator := co }
-    showSent rs (firstErr rs)
-  else if a.pkg == "listgroups" && splits then
-    -- one part per broker of the layout (Go map order: the error reported is any part's)
-    let rs := c.brokers.map fun (k, _) => sendOne a boot c down vt { field := k }
-    showSent rs ((firstErr rs).map fun _ => "some")
-  else if a.pkg == "describeconfigs" && splits then
-    -- one part per broker resource, then one for all other resources
-    let brokerRs := q.info.resources.filter (·.1 == 4)
-    let rest := q.info.resources.filter (·.1 != 4)
-    let parts := brokerRs.map (fun r => ({ resources := [r] } : ReqInfo)) ++
-      (if rest.isEmpty then [] else [({ resources := rest } : ReqInfo)])
-    let rs := parts.map (sendOne a boot c down vt)
-    showSent rs (firstErr rs)
-  else
+  match KV.Split.parts roundTripCases a c coords q.info with
+  | some (ps, rule) =>
+    let rs := ps.map (sendOne a boot c down vt)
+    match rule with
+    | .allFailed =>
+      -- ListOffsets Merge: an error only when every part failed
+      let allFailed := !rs.isEmpty && rs.all fun | .err _ => true | _ => false
+      showSent rs (if allFailed then firstErr rs else none)
+    | .anyFailed =>
+      -- ListGroups iterates a Go map: the error reported is any failed part's
+      showSent rs (if a.pkg == "listgroups" then (firstErr rs).map fun _ => "some" else firstErr rs)
+  | none =>
     let r := { q.info with coordinator := coords.headD (-1) }
     let s := sendOne a boot c down vt r
     showSent [s] (firstErr [s])
